@@ -697,3 +697,33 @@ pub(crate) fn top_frame_is_untracked(l: &ZalsaLocal) -> bool {
     unsafe { l.with_query_stack_unchecked(|stack| crate::active_query::verif::is_untracked(stack.last().unwrap())) }
 }
 
+
+/// `ZalsaLocal::new()` with the query stack's frames stored in `cell` (see `active_query::verif::StackCell`).
+pub(crate) fn local_on(cell: &mut crate::active_query::verif::StackCell) -> ZalsaLocal {
+    ZalsaLocal {
+        query_stack: RefCell::new(crate::active_query::verif::query_stack_on(cell)),
+        most_recent_pages: UnsafeCell::new(FxHashMap::default()),
+        cancelled: CancellationToken::default(),
+    }
+}
+
+#[cfg_attr(kani, kani::proof)]
+#[cfg_attr(kani, kani::unwind(5))]
+fn k_zl_1s_experiment() {
+    let mut cell = crate::active_query::verif::stack_cell();
+    let l = local_on(&mut cell);
+    let a = vk::key(3, 1);
+    let b = vk::key(4, 2);
+    let s_id = vk::any_id();
+    let s = DatabaseKeyIndex::new(IngredientIndex::new(9), s_id);
+    let fa = l.push_query(a);
+    assert!(!l.is_tracked_struct_of_active_query(s));
+    l.store_tracked_struct_id(crate::tracked_struct::verif::identity(9, 77, 0), s_id);
+    assert!(l.is_tracked_struct_of_active_query(s));
+    let fb = l.push_query(b);
+    assert!(!l.is_tracked_struct_of_active_query(s));
+    vcover!();
+    std::mem::forget(fb);
+    std::mem::forget(fa);
+    std::mem::forget(l);
+}
